@@ -478,13 +478,15 @@ impl<'a> Poly<'a> {
     // Computes the multiplication of polynomials p and q in array z,
     // using tmp as scratch buffer.
     fn karatsuba(zn: &ZmodN, z: &mut [MInt], p: &[MInt], q: &[MInt], tmp: &mut [MInt]) {
-        if p.len() <= 20 && q.len() <= 20 {
+        let half = (max(p.len(), q.len()) + 1) / 2;
+        if (p.len() <= 20 && q.len() <= 20) || p.len() <= half || q.len() <= half {
+            // Small or unbalanced operands (one of the high parts would be empty):
+            // schoolbook product.
             Self::_basic_mul(zn, z, p, q);
             return;
         }
         debug_assert!(z.len() >= p.len() + q.len());
         // Invariant: tmp has 3 times the length of p or q
-        let half = (max(p.len(), q.len()) + 1) / 2;
         assert!(tmp.len() >= 4 * half);
         // Add:
         // plo*qlo
